@@ -1,7 +1,7 @@
 (* Proofs about the model of jsoncanonicalizer.Transform (C07). *)
 From Coq Require Import String List NArith ZArith Bool Lia Permutation Sorted.
 From Coq.Strings Require Import Byte.
-From SV Require Import Base.Bytes Json.Ast Json.Utf Json.Num Json.Jcs.
+From SV Require Import Base.Bytes Json.Ast Json.Utf Json.Num Json.Jcs Json.NumProofs.
 Import ListNotations.
 Local Open Scope N_scope.
 
@@ -243,10 +243,11 @@ Fixpoint cnorm (j : json) : json :=
   | _ => j
   end.
 
-(* what the parser produces: finite numbers, member names with pairwise different sort keys *)
+(* what the parser produces: finite numbers that are the result of parsing some token, member names with
+   pairwise different sort keys *)
 Fixpoint wf (j : json) : Prop :=
   match j with
-  | JNum b => number_to_json b <> None
+  | JNum b => number_to_json b <> None /\ exists tok, parse_number tok = Some b
   | JArr l => (fix go (l : list json) : Prop := match l with [] => True | x :: r => wf x /\ go r end) l
   | JObj m => NoDup (keys m) /\
               (fix go (m : list (bytes * json)) : Prop :=
@@ -317,7 +318,8 @@ Qed.
 Lemma wf_cnorm : forall v, wf v -> wf (cnorm v).
 Proof.
   induction v as [| | | |l IH|m IH] using json_ind'; intro Hw; try exact Hw.
-  - cbn [cnorm wf] in *. now rewrite number_to_json_nnorm.
+  - cbn [cnorm wf] in *. destruct Hw as [Hw [tok Ht]]. split; [now rewrite number_to_json_nnorm|].
+    unfold nnorm. destruct (is_zero b); [exists [x30]; vm_compute; reflexivity|now exists tok].
   - cbn [cnorm]. apply wf_arr. apply wf_arr in Hw. rewrite Forall_forall in *.
     intros y Hy. apply in_map_iff in Hy. destruct Hy as [x [<- Hx]]. apply IH; [exact Hx|]. now apply Hw.
   - rewrite cnorm_obj. apply wf_obj. apply wf_obj in Hw. destruct Hw as [Hnd Hall]. split.
@@ -492,9 +494,6 @@ Qed.
 (* ================================================================================================ *)
 (** * 5. Parsing the canonical form gives back the canonical value *)
 
-Definition numchar (c : byte) : Prop :=
-  (48 <= bN c <= 57) \/ c = x2e \/ c = x65 \/ c = x2b \/ c = x2d.
-
 Lemma numchar_tokchar : forall c, numchar c -> tokchar c.
 Proof.
   intros c [H|[->|[->|[->| ->]]]]; try (repeat split; reflexivity).
@@ -549,10 +548,17 @@ Proof. reflexivity. Qed.
 Lemma osum_cons : forall k v m, osum ((k, v) :: m) = (S (fsize v) + osum m)%nat.
 Proof. reflexivity. Qed.
 
+(* The one fact about numbers that is assumed below (see NumProofs.number_roundtrip_partial for the part that is
+   proved and for what is missing): a double that was read from some token, printed by NumberToJSON and read
+   again, is the same double (-0 printed as "0" reads as +0).  It is checked by evaluation on every number of
+   the differential run (SV.Corr.Json.n_rt_mismatches). *)
+Definition num_roundtrip_statement : Prop :=
+  forall tok b s, parse_number tok = Some b -> number_to_json b = Some s -> parse_number s = Some (nnorm b).
+
 Section RoundTrip.
   (* The two facts about numbers that the document-level proofs need; both are discharged for
      [number_to_json]/[parse_number] where the section is instantiated (see NumProofs). *)
-  Hypothesis num_rt : forall b s, number_to_json b = Some s -> parse_number s = Some (nnorm b).
+  Hypothesis num_rt : num_roundtrip_statement.
   Hypothesis num_chars : forall b s, number_to_json b = Some s -> s <> [] /\ Forall numchar s.
 
   (* what the induction carries for one value *)
@@ -590,7 +596,7 @@ Section RoundTrip.
                 (bN c =? 0x5d) = false /\ (bN c =? 0x7d) = false.
   Proof.
     intros v Hw. destruct v as [|[|]|b|s|l|m]; cbn [print_canonical]; try (eexists _, _; repeat split; reflexivity).
-    - cbn [wf] in Hw. destruct (number_to_json b) as [s|] eqn:E; [|contradiction].
+    - cbn [wf] in Hw. destruct Hw as [Hw _]. destruct (number_to_json b) as [s|] eqn:E; [|contradiction].
       destruct (num_chars _ _ E) as [Hne Hall]. destruct s as [|c s]; [contradiction|].
       inversion Hall as [|? ? Hc _]; subst. exists c, s. split; [reflexivity|].
       pose proof (numchar_tokchar _ Hc) as [H1 [H2 H3]]. repeat split; try assumption.
@@ -742,7 +748,8 @@ Section RoundTrip.
       + intros c r0 E. inversion E. repeat split; reflexivity.
       + repeat constructor.
       + intros c r0 E. inversion E. repeat split; reflexivity.
-    - cbn [wf] in Hw. cbn [print_canonical cnorm]. destruct (number_to_json b) as [s|] eqn:E; [|contradiction].
+    - cbn [wf] in Hw. destruct Hw as [Hw [tok0 Htok0]].
+      cbn [print_canonical cnorm]. destruct (number_to_json b) as [s|] eqn:E; [|contradiction].
       destruct (num_chars _ _ E) as [Hne Hall].
       assert (Htok : Forall tokchar s) by (eapply Forall_impl; [apply numchar_tokchar|exact Hall]).
       apply tok_lit; try assumption.
@@ -757,7 +764,7 @@ Section RoundTrip.
           - destruct Hin as [<-|[<-|[<-|[]]]]; reflexivity.
           - destruct Hin as [<-|[<-|[<-|[]]]]; reflexivity. }
         rewrite (Hl lit_true), (Hl lit_false), (Hl lit_null) by (cbn [In]; auto).
-        rewrite (num_rt _ _ E). rewrite number_to_json_nnorm, E. reflexivity.
+        rewrite (num_rt _ _ _ Htok0 E). rewrite number_to_json_nnorm, E. reflexivity.
       + intros c r0 ->. inversion Hall as [|? ? Hc _]; subst.
         destruct Hc as [Hc|[->|[->|[->| ->]]]]; try (repeat split; reflexivity).
         repeat split; apply N.eqb_neq; lia.
@@ -808,9 +815,9 @@ Proof.
   destruct (bytes_eqb (c :: tok) lit_true); [inversion H; exact I|].
   destruct (bytes_eqb (c :: tok) lit_false); [inversion H; exact I|].
   destruct (bytes_eqb (c :: tok) lit_null); [inversion H; exact I|].
-  destruct (parse_number (c :: tok)) as [b|]; [|discriminate].
+  destruct (parse_number (c :: tok)) as [b|] eqn:Ep; [|discriminate].
   destruct (number_to_json b) as [s|] eqn:E; [|discriminate].
-  inversion H; subst. cbn [wf]. now rewrite E.
+  inversion H; subst. cbn [wf]. split; [now rewrite E|now exists (c :: tok)].
 Qed.
 
 Lemma parse_wf : forall f m s v r, parse f m s = Some (v, r) -> mode_wf m -> wf v /\ mode_shape m v.
@@ -888,7 +895,7 @@ Proof.
 Qed.
 
 Section Main.
-  Hypothesis num_rt : forall b s, number_to_json b = Some s -> parse_number s = Some (nnorm b).
+  Hypothesis num_rt : num_roundtrip_statement.
   Hypothesis num_chars : forall b s, number_to_json b = Some s -> s <> [] /\ Forall numchar s.
 
   Lemma fsize_le : forall v, wf v -> (fsize v <= 2 * length (print_canonical v))%nat.
@@ -896,7 +903,8 @@ Section Main.
     induction v as [|b|b|s|l IH|m IH] using json_ind'; intro Hw.
     - cbn. lia.
     - destruct b; cbn; lia.
-    - cbn [wf] in Hw. cbn [fsize print_canonical]. destruct (number_to_json b) as [s|] eqn:E; [|contradiction].
+    - cbn [wf] in Hw. destruct Hw as [Hw _].
+      cbn [fsize print_canonical]. destruct (number_to_json b) as [s|] eqn:E; [|contradiction].
       destruct (num_chars _ _ E) as [Hne _]. destruct s; [contradiction|]. cbn [length]. lia.
     - cbn [fsize print_canonical]. unfold decorate. cbn [length]. lia.
     - apply wf_arr in Hw. cbn [fsize print_canonical length]. rewrite app_length. cbn [length].
@@ -946,7 +954,7 @@ Section Main.
   Qed.
 
   (* 1. the canonical form is a fixed point *)
-  Theorem transform_fixed_point : forall b c, transform b = Some c -> transform c = Some c.
+  Theorem transform_fixed_point_cond : forall b c, transform b = Some c -> transform c = Some c.
   Proof.
     intros b c H. unfold transform in *. destruct (parse_value b) as [v|] eqn:E; [|discriminate].
     inversion H; subst. apply parse_value_wf in E. destruct E as [Hw Hs].
@@ -954,7 +962,7 @@ Section Main.
   Qed.
 
   (* 2. the canonical form denotes the same I-JSON value *)
-  Theorem transform_same_value : forall b c v, transform b = Some c -> parse_value b = Some v ->
+  Theorem transform_same_value_cond : forall b c v, transform b = Some c -> parse_value b = Some v ->
     exists v', parse_value c = Some v' /\ json_equiv_jcs v v'.
   Proof.
     intros b c v H E. unfold transform in H. rewrite E in H. inversion H; subst.
@@ -963,7 +971,7 @@ Section Main.
   Qed.
 
   (* 5. uniqueness: different canonical values have different serializations *)
-  Theorem print_canonical_injective : forall v1 v2, wf v1 -> wf v2 -> top_shape v1 -> top_shape v2 ->
+  Theorem print_canonical_injective_cond : forall v1 v2, wf v1 -> wf v2 -> top_shape v1 -> top_shape v2 ->
     print_canonical v1 = print_canonical v2 -> cnorm v1 = cnorm v2.
   Proof.
     intros v1 v2 Hw1 Hw2 Hs1 Hs2 Hp. pose proof (rt_top v1 Hw1 Hs1) as H1. pose proof (rt_top v2 Hw2 Hs2) as H2.
@@ -1139,3 +1147,246 @@ Example structure_rejected :
                  bs "{""a"":1,""a"":2}"; bs "1"; bs """a"""; bs "[1,]"; bs "[1E400]"]
   = repeat None 13.
 Proof. vm_compute. reflexivity. Qed.
+
+(* ================================================================================================ *)
+(** * 9. Final statements *)
+
+(* FULL STATEMENT wanted:  forall b c, transform b = Some c -> transform c = Some c.
+   Proved under [num_roundtrip_statement] (numbers read, printed and read again are unchanged), which is the
+   only missing piece; everything about structure, strings, escapes, member sorting and fuel is proved. *)
+Theorem transform_fixed_point_partial :
+  num_roundtrip_statement -> forall b c, transform b = Some c -> transform c = Some c.
+Proof. intro H. exact (transform_fixed_point_cond H number_to_json_chars). Qed.
+
+(* FULL STATEMENT wanted: the same without the first hypothesis. *)
+Theorem transform_same_value_partial :
+  num_roundtrip_statement ->
+  forall b c v, transform b = Some c -> parse_value b = Some v ->
+  exists v', parse_value c = Some v' /\ json_equiv_jcs v v'.
+Proof. intro H. exact (transform_same_value_cond H number_to_json_chars). Qed.
+
+(* FULL STATEMENT wanted: the same without the first hypothesis. *)
+Theorem print_canonical_injective_partial :
+  num_roundtrip_statement ->
+  forall v1 v2, wf v1 -> wf v2 -> top_shape v1 -> top_shape v2 ->
+  print_canonical v1 = print_canonical v2 -> cnorm v1 = cnorm v2.
+Proof. intro H. exact (print_canonical_injective_cond H number_to_json_chars). Qed.
+
+(* 4. output shape: the output is the serialization of a value in normal form: member names strictly increasing
+   in UTF-16 code unit order in every object, no negative zero; by definition of [print_canonical] it contains
+   no white space outside strings, the escapes of [escape_byte], and numbers in the form of [number_to_json]. *)
+Fixpoint normal_form (j : json) : Prop :=
+  match j with
+  | JNum b => nnorm b = b
+  | JArr l => (fix go (l : list json) : Prop := match l with [] => True | x :: r => normal_form x /\ go r end) l
+  | JObj m => StronglySorted klt m /\
+              (fix go (m : list (bytes * json)) : Prop :=
+                 match m with [] => True | (k, v) :: r => normal_form v /\ go r end) m
+  | _ => True
+  end.
+
+Lemma normal_form_cnorm : forall v, wf v -> normal_form (cnorm v).
+Proof.
+  induction v as [| | | |l IH|m IH] using json_ind'; intro Hw; try exact I.
+  - cbn [cnorm normal_form]. apply nnorm_idem.
+  - cbn [cnorm]. apply wf_arr in Hw. induction l as [|x r IHr]; [exact I|].
+    inversion IH; subst. inversion Hw; subst. cbn [map normal_form]. split; [auto|]. now apply IHr.
+  - rewrite cnorm_obj. apply wf_obj in Hw. destruct Hw as [Hnd Hall]. cbn [normal_form]. split.
+    + apply sort_g_sorted. now rewrite keys_map_snd.
+    + assert (H : Forall (fun kv => normal_form (snd kv)) (sort_g (map_snd cnorm m))).
+      { eapply Permutation_Forall; [apply Permutation_sym, sort_g_perm|].
+        rewrite Forall_forall in *. intros [k y] Hy. unfold map_snd in Hy. apply in_map_iff in Hy.
+        destruct Hy as [[k' x] [Heq Hx]]. inversion Heq; subst. cbn [snd]. apply (IH _ Hx). apply (Hall _ Hx). }
+      induction H as [|[k y] r Hy Hr IHr]; [exact I|]. split; [exact Hy|exact IHr].
+Qed.
+
+Theorem transform_output_shape_partial :
+  num_roundtrip_statement ->
+  forall b c, transform b = Some c ->
+  exists v, parse_value c = Some v /\ normal_form v /\ c = print_canonical v.
+Proof.
+  intros Hn b c H. unfold transform in H. destruct (parse_value b) as [v|] eqn:E; [|discriminate].
+  inversion H; subst. apply parse_value_wf in E. destruct E as [Hw Hs].
+  exists (cnorm v). split; [apply (rt_top Hn number_to_json_chars); assumption|].
+  split; [now apply normal_form_cnorm|]. symmetry. now apply print_cnorm.
+Qed.
+
+(* minimal escaping: a byte is escaped only when it has to be (control characters, quote, backslash), with the
+   two-character escape when one exists and lower-case \u00xx otherwise *)
+Lemma escape_byte_plain : forall c, plainb c = true -> escape_byte c = [c].
+Proof. intros c H. destruct c; try discriminate H; reflexivity. Qed.
+
+Lemma escape_byte_short : forall c, In c [x5c; x22; x08; x0c; x0a; x0d; x09] ->
+  exists e, escape_byte c = [x5c; e].
+Proof.
+  intros c H. cbn [In] in H.
+  repeat (destruct H as [<-|H]; [eexists; reflexivity|]). contradiction.
+Qed.
+
+Lemma escape_byte_hex : forall c, (bN c <? 0x20) = true ->
+  (exists e, escape_byte c = [x5c; e]) \/ (exists h1 h2, escape_byte c = [x5c; x75; x30; x30; h1; h2]).
+Proof.
+  intros c H. destruct c; try discriminate H;
+    first [left; eexists; reflexivity|right; eexists _, _; reflexivity].
+Qed.
+
+(* fuel: more fuel never changes a successful result *)
+Lemma parse_mono : forall f m s x, parse f m s = Some x -> parse (S f) m s = Some x.
+Proof.
+  induction f as [|f IH]; intros m s x H; [discriminate|]. destruct m as [|next acc|next acc].
+  - rewrite parse_elem_eq in H. rewrite parse_elem_eq. destruct (scan s) as [[c r]|]; [|discriminate].
+    destruct (bN c =? 0x7b); [now apply IH|]. destruct (bN c =? 0x22); [exact H|].
+    destruct (bN c =? 0x5b); [now apply IH|exact H].
+  - rewrite parse_arr_eq in H. rewrite parse_arr_eq. destruct (scan s) as [[c r]|]; [|discriminate].
+    destruct (bN c =? 0x5d); [exact H|].
+    destruct (if next then scan_for 0x2c s else Some s) as [s1|]; [|discriminate].
+    destruct (parse f MElem s1) as [[v s2]|] eqn:E; [|discriminate].
+    rewrite (IH _ _ _ E). now apply IH.
+  - rewrite parse_obj_eq in H. rewrite parse_obj_eq. destruct (scan s) as [[c r]|]; [|discriminate].
+    destruct (bN c =? 0x7d); [exact H|].
+    destruct (if next then scan_for 0x2c s else Some s) as [s1|]; [|discriminate].
+    destruct (scan_for 0x22 s1) as [s2|]; [|discriminate].
+    destruct (parse_string s2 []) as [[k s3]|]; [|discriminate].
+    destruct (scan_for 0x3a s3) as [s4|]; [|discriminate].
+    destruct (parse f MElem s4) as [[v s5]|] eqn:E; [|discriminate].
+    rewrite (IH _ _ _ E). destruct (key_mem (utf16_key k) acc); [discriminate|]. now apply IH.
+Qed.
+
+(* non-vacuity: the hypotheses of the theorems above hold on a concrete document *)
+Definition ex_doc : bytes :=
+  bs "{ ""b"" : [1.0, -0, 1e21, 1E-7, ""\u00e9\ud83d\ude00""], ""\ud83d\ude00"" : {}, ""\ufb33"" : null, ""a"" : ""\/"" }".
+Definition ex_canon : bytes :=
+  bs "{""a"":""/"",""b"":[1,0,1e+21,1e-7,""" ++ [xc3; xa9; xf0; x9f; x98; x80] ++ bs """],""" ++
+  [xf0; x9f; x98; x80] ++ bs """:{},""" ++ [xef; xac; xb3] ++ bs """:null}".
+
+Example theorems_apply :
+  transform ex_doc = Some ex_canon /\ transform ex_canon = Some ex_canon /\
+  parse_value ex_canon = option_map cnorm (parse_value ex_doc).
+Proof. repeat split; vm_compute; reflexivity. Qed.
+
+(* ================================================================================================ *)
+(** * 10. The fuel of [parse_value] suffices: a result None is never caused by running out of fuel *)
+
+Lemma scan_len : forall s c r, scan s = Some (c, r) -> (length r < length s)%nat.
+Proof.
+  induction s as [|d s IH]; intros c r H; [discriminate|]. cbn [scan] in H.
+  destruct (is_ws (bN d)).
+  - apply IH in H. cbn [length]. lia.
+  - destruct (0x7f <? bN d); [discriminate|]. inversion H; subst. cbn [length]. lia.
+Qed.
+
+Lemma scan_for_len : forall x s r, scan_for x s = Some r -> (length r < length s)%nat.
+Proof.
+  intros x s r H. unfold scan_for in H. destruct (scan s) as [[c r0]|] eqn:E; [|discriminate].
+  destruct (bN c =? x); [|discriminate]. inversion H; subst. eapply scan_len; exact E.
+Qed.
+
+Lemma parse_string_len : forall n s acc k r,
+  (length s <= n)%nat -> parse_string s acc = Some (k, r) -> (length r < length s)%nat.
+Proof.
+  induction n as [|n IH]; intros s acc k r Hl H.
+  - destruct s; [discriminate|cbn in Hl; lia].
+  - destruct s as [|c s']; [discriminate|]. cbn [parse_string] in H.
+    destruct (bN c =? 0x22). { inversion H; subst. cbn [length]. lia. }
+    destruct (bN c <? 0x20); [discriminate|].
+    destruct (bN c =? 0x5c).
+    2: { apply IH in H; cbn [length] in *; lia. }
+    destruct s' as [|e r1]; [discriminate|].
+    destruct (bN e =? 0x75).
+    + destruct r1 as [|h1 [|h2 [|h3 [|h4 r2]]]]; try discriminate.
+      destruct (hex4 h1 h2 h3 h4) as [u1|]; [|discriminate].
+      destruct (is_surrogate u1).
+      * destruct r2 as [|b0 [|u [|k1 [|k2 [|k3 [|k4 r3]]]]]]; try discriminate.
+        destruct ((bN b0 =? 0x5c) && (bN u =? 0x75)); [|discriminate].
+        destruct (hex4 k1 k2 k3 k4) as [u2|]; [|discriminate].
+        apply IH in H; cbn [length] in *; lia.
+      * apply IH in H; cbn [length] in *; lia.
+    + destruct (bN e =? 0x2f); [apply IH in H; cbn [length] in *; lia|].
+      destruct (unescape (bN e)); [apply IH in H; cbn [length] in *; lia|discriminate].
+Qed.
+
+Lemma token_loop_len : forall s acc tok r,
+  token_loop s acc = Some (tok, r) -> (length r + length tok <= length s + length acc)%nat.
+Proof.
+  induction s as [|d s IH]; intros acc tok r H; rewrite token_loop_eq in H; [discriminate|].
+  destruct (scan (d :: s)) as [[c x]|]; [|discriminate].
+  destruct (is_term (bN c)). { inversion H; subst. rewrite rev_length. lia. }
+  destruct (0x7f <? bN d); [discriminate|].
+  destruct (is_ws (bN d)). { inversion H; subst. rewrite rev_length. cbn [length]. lia. }
+  apply IH in H. cbn [length] in *. lia.
+Qed.
+
+Lemma parse_len : forall f m s v r, parse f m s = Some (v, r) -> (length r < length s)%nat.
+Proof.
+  induction f as [|f IH]; intros m s v r H; [discriminate|]. destruct m as [|next acc|next acc].
+  - rewrite parse_elem_eq in H. destruct (scan s) as [[c r0]|] eqn:Es; [|discriminate]. apply scan_len in Es.
+    destruct (bN c =? 0x7b). { apply IH in H. lia. }
+    destruct (bN c =? 0x22).
+    { destruct (parse_string r0 []) as [[str r']|] eqn:Ep; [|discriminate]. inversion H; subst.
+      apply (parse_string_len _ _ _ _ _ (le_n _)) in Ep. lia. }
+    destruct (bN c =? 0x5b). { apply IH in H. lia. }
+    destruct (token_loop (c :: r0) []) as [[tok r']|] eqn:Et; [|discriminate].
+    destruct (simple_value tok) as [v0|] eqn:Ev; [|discriminate]. inversion H; subst.
+    apply token_loop_len in Et. destruct tok; [discriminate Ev|]. cbn [length] in Et. lia.
+  - rewrite parse_arr_eq in H. destruct (scan s) as [[c r0]|] eqn:Es; [|discriminate]. apply scan_len in Es.
+    destruct (bN c =? 0x5d). { inversion H; subst. exact Es. }
+    destruct (if next then scan_for 0x2c s else Some s) as [s1|] eqn:E1; [|discriminate].
+    assert (H1 : (length s1 <= length s)%nat).
+    { destruct next; [apply scan_for_len in E1; lia|inversion E1; subst; lia]. }
+    destruct (parse f MElem s1) as [[v0 s2]|] eqn:E2; [|discriminate].
+    apply IH in E2. apply IH in H. lia.
+  - rewrite parse_obj_eq in H. destruct (scan s) as [[c r0]|] eqn:Es; [|discriminate]. apply scan_len in Es.
+    destruct (bN c =? 0x7d). { inversion H; subst. exact Es. }
+    destruct (if next then scan_for 0x2c s else Some s) as [s1|] eqn:E1; [|discriminate].
+    assert (H1 : (length s1 <= length s)%nat).
+    { destruct next; [apply scan_for_len in E1; lia|inversion E1; subst; lia]. }
+    destruct (scan_for 0x22 s1) as [s2|] eqn:E2; [|discriminate]. apply scan_for_len in E2.
+    destruct (parse_string s2 []) as [[k s3]|] eqn:E3; [|discriminate].
+    apply (parse_string_len _ _ _ _ _ (le_n _)) in E3.
+    destruct (scan_for 0x3a s3) as [s4|] eqn:E4; [|discriminate]. apply scan_for_len in E4.
+    destruct (parse f MElem s4) as [[v0 s5]|] eqn:E5; [|discriminate]. apply IH in E5.
+    destruct (key_mem (utf16_key k) acc); [discriminate|]. apply IH in H. lia.
+Qed.
+
+Definition need (m : mode) (s : bytes) : nat :=
+  (2 * length s + match m with MElem => 1 | _ => 2 end)%nat.
+
+Lemma fuel_enough : forall f m s, (need m s <= f)%nat -> parse (S f) m s = parse f m s.
+Proof.
+  induction f as [|f IH]; intros m s Hn; [unfold need in Hn; destruct m; lia|].
+  destruct m as [|next acc|next acc]; unfold need in Hn.
+  - rewrite (parse_elem_eq (S f)), (parse_elem_eq f). destruct (scan s) as [[c r0]|] eqn:Es; [|reflexivity].
+    apply scan_len in Es.
+    destruct (bN c =? 0x7b). { apply IH. unfold need. lia. }
+    destruct (bN c =? 0x22); [reflexivity|].
+    destruct (bN c =? 0x5b); [|reflexivity]. apply IH. unfold need. lia.
+  - rewrite (parse_arr_eq (S f)), (parse_arr_eq f). destruct (scan s) as [[c r0]|] eqn:Es; [|reflexivity].
+    destruct (bN c =? 0x5d); [reflexivity|].
+    destruct (if next then scan_for 0x2c s else Some s) as [s1|] eqn:E1; [|reflexivity].
+    assert (H1 : (length s1 <= length s)%nat).
+    { destruct next; [apply scan_for_len in E1; lia|inversion E1; subst; lia]. }
+    rewrite (IH MElem s1) by (unfold need; lia).
+    destruct (parse f MElem s1) as [[v0 s2]|] eqn:E2; [|reflexivity].
+    apply parse_len in E2. apply IH. unfold need. lia.
+  - rewrite (parse_obj_eq (S f)), (parse_obj_eq f). destruct (scan s) as [[c r0]|] eqn:Es; [|reflexivity].
+    destruct (bN c =? 0x7d); [reflexivity|].
+    destruct (if next then scan_for 0x2c s else Some s) as [s1|] eqn:E1; [|reflexivity].
+    assert (H1 : (length s1 <= length s)%nat).
+    { destruct next; [apply scan_for_len in E1; lia|inversion E1; subst; lia]. }
+    destruct (scan_for 0x22 s1) as [s2|] eqn:E2; [|reflexivity]. apply scan_for_len in E2.
+    destruct (parse_string s2 []) as [[k s3]|] eqn:E3; [|reflexivity].
+    apply (parse_string_len _ _ _ _ _ (le_n _)) in E3.
+    destruct (scan_for 0x3a s3) as [s4|] eqn:E4; [|reflexivity]. apply scan_for_len in E4.
+    rewrite (IH MElem s4) by (unfold need; lia).
+    destruct (parse f MElem s4) as [[v0 s5]|] eqn:E5; [|reflexivity]. apply parse_len in E5.
+    destruct (key_mem (utf16_key k) acc); [reflexivity|]. apply IH. unfold need. lia.
+Qed.
+
+(* any larger amount of fuel gives the same result as the fuel used by [parse_value] *)
+Theorem fuel_suffices : forall b m r k,
+  (length r <= length b)%nat -> parse (parse_fuel b + k) m r = parse (parse_fuel b) m r.
+Proof.
+  intros b m r k Hr. induction k as [|k IH]; [now rewrite Nat.add_0_r|].
+  rewrite Nat.add_succ_r, fuel_enough; [exact IH|].
+  unfold need, parse_fuel. destruct m; lia.
+Qed.
